@@ -1,6 +1,7 @@
 def setup(chk):
     chk.add_tu('C13.cpp')
+    chk.add_tu('C13x.cpp')   # element constructors that throw: TU lowered with exceptions, translator's exception model
     chk.extra_evidence.update({
         'bounds_text': 'Optional<Tr>, Entry<Tr,7>, Optional<u32>, Entry<u32,1>, Result<Err,Tr>, Result<Err,u32>, Status<void>: 2 objects + spare slot in arbitrary valid states, 10-11 operation kinds (construct, in-place, copy, move, assign value/Optional/error, clear, take, swap, destroy), K=1 step and K=2 (quick) / K=3 (thorough); all 18 comparison operators with symbolic emptiness and int32 values; GetErrorMessage for all 19 ErrorStatus values',
-        'outside_bounds': ['value constructors that throw (-fno-exceptions lowering)', 'initializer_list constructors'],
+        'outside_bounds': ['throwing constructors inside Optional in-place/value construction (unconditionally noexcept storage constructor: std::terminate by design)', 'initializer_list constructors'],
         'assumes': ['model state = (engaged, payload) resp. (empty|error|value, payload); live tracked values == engaged holders']})
